@@ -406,6 +406,11 @@ func histCases(prop, tier string, seed int64) []core.Case {
 			cases = append(cases, core.Case{ID: fmt.Sprintf("named-users/dotu=%v", dotu), Run: func(ctx *core.Ctx) core.Result {
 				return runNamedUsers(dotu)
 			}})
+			cases = append(cases, core.Case{ID: fmt.Sprintf("arguments-of-held-writes/dotu=%v", dotu), Run: func(ctx *core.Ctx) core.Result {
+				// the arguments the implementation finds in a request are the ones the client sent also when it looks at
+				// them late, after many later requests have come in
+				return c03HeldPayload(ctx, "C05", dotu, map[bool]uint32{true: 1024, false: 256}[dotu])
+			}})
 			cases = append(cases, core.Case{ID: fmt.Sprintf("refused-version/dotu=%v", dotu), Run: func(ctx *core.Ctx) core.Result {
 				return runRefusedVersion(dotu)
 			}})
